@@ -195,15 +195,20 @@ class Parser:
             self._add_instruction(OpCode.COLOR)
             return True
 
+        # An operand can be a matrix block containing other commands, which
+        # set self._op_code for themselves.
+        op_code = self._op_code
         if not self._operand():
             return False
-        self._add_instruction(self._op_code)
+        self._op_code = op_code
+        self._add_instruction(op_code)
 
         while self._current_token.is_a(TokenTypes.AND):
             self.next_token()
             if not self._operand():
                 return False
-            self._add_instruction(self._op_code)
+            self._op_code = op_code
+            self._add_instruction(op_code)
         return True
 
     def _operand(self) -> bool:
